@@ -197,11 +197,43 @@ def work(job):
         # before or after the first: nothing may carry over from one file to the next
         twin = "src/a_twin.rs" if hash(fileseed) % 8 == 0 else "src/z_twin.rs"
         files[twin] = twin_of(gf.data())
+    minis = []
+    if hash(fileseed) % 3 == 0:
+        # pairs of one-statement files written from one skeleton (the only statement of each at the same byte offset), one with a
+        # genuine directive above the statement, one with the directive word spoilt; in both directory orders
+        mr = core.rng_for("c14mini", fileseed)
+        for j, d in enumerate(["ignore", "no-kvp"]):
+            gm = gen.GenFile(eol)
+            gm.raw("// module %d%s" % (j, eol) + "fn run() {" + eol)
+            gm.raw("    " + comment("breadlog:" + d, rows[0], mr) + eol)
+            f = dict(gen.NEUTRAL)
+            f["nkv"] = mr.choice([0, 1])
+            _, st, post = gen.build_stmt(f, "Mini%s_%d" % (fileseed, j), mr, eol=eol)
+            gm.raw("    ")
+            it = gm.add_stmt("", st, post)
+            gm.newline()
+            gm.raw("}" + eol)
+            first, second = ("src/k%d_a.rs" % j, "src/k%d_b.rs" % j) if mr.random() < 0.5 else ("src/k%d_b.rs" % j, "src/k%d_a.rs" % j)
+            files[first] = gm.data()
+            files[second] = twin_of(gm.data())
+            minis.append((first, it, d))
+            minis.append((second, it, "none"))
     with core.Box(tag="c14") as box:
         cfg = core.make_config(structured=True if structured else None, use_cache=False)
         out = lab.run_tree(built, box, files, cfg, trace=False)
     fo = out.files["src/f.rs"]
     res = {"evaluations": 2, "nontrivial": [], "violations": [], "samples": [], "inconclusive": {}, "counters": {}}
+    for rel, it, eff in minis:
+        fm = out.files[rel]
+        if fm.tokens is None or out.check.panicked() or out.edit.panicked():
+            continue
+        res["counters"]["one_statement_twin_files"] = res["counters"].get("one_statement_twin_files", 0) + 1
+        clause = judge_one(it, eff, structured, fm)
+        if clause:
+            res["violations"].append({"signature": "C14.%s|one-statement-file-next-to-its-twin|expected=%s|%s" % (clause, eff, "structured" if structured else "unstructured"),
+                                      "detail": {"file": rel, "content": files[rel], "other_files": sorted(files)},
+                                      "case": {"rows": rows, "structured": structured, "eol": eol, "fileseed": fileseed}})
+            break
     if twin:
         res["counters"]["twin_files"] = 1
         ft = out.files[twin]
